@@ -18,6 +18,7 @@ def lag_case(seed, i, engine):
     lines = [hist.cfg_line(engine)]
     lines += hist.gen_writes(r, sh, r.randint(4, 10), keys, p_ok=0.9)
     lines += ["rev", "lowrev %d" % (hist.INIT + r.randint(0, max(0, sh.dealt - hist.INIT - 1)))]
+    lines += ["get %s 0" % hx(k) for k in keys]      # what each key reads as before the lagging node touches it
     for k in keys:
         cur = sh.keys.get(k)
         currev = cur[0] if cur else 0
@@ -58,8 +59,22 @@ def native_watch_oracle(case):
 
 def lag_oracle(case):
     newest = {}
+    last_get = {}    # key -> what the last point read of it answered, if nothing was written to it since
     for i, (line, out) in enumerate(zip(case.lines, case.impl)):
         t, o = line.split(), out.split()
+        if t[0] == "get" and len(o) == 3 and o[1] != "err":
+            last_get[t[1]] = o[2]
+        if t[0] == "create" and len(o) >= 2 and o[1] == "cf" and last_get.get(t[1]) == "-":
+            # requests are sequential here: the key read absent before the create, nothing touched it since, and it
+            # reads absent right after - it was absent during the whole request (the allocator lags behind the key's
+            # deletion record: /repo 42e5238 answers an error)
+            after = [case.impl[j].split() for j in range(i + 1, min(i + 3, len(case.lines))) if case.lines[j].split()[:2] == ["get", t[1]]]
+            if after and len(after[0]) == 3 and after[0][2] == "-":
+                return ("line %d: `%s` was answered 'condition failed' (%s) although key %s read absent before and after it and no "
+                        "other request ran in between (sequential script, allocator lagging behind the key's deletion record): the "
+                        "condition 'absent' did not fail" % (i + 1, line, out, t[1]), "create-cf-on-deleted-key-lagging-allocator")
+        if t[0] in ("create", "update", "delete") and not (len(o) >= 2 and o[1] in ("cf", "nf")):
+            last_get.pop(t[1], None)
         if t[0] in ("create", "update", "delete") and len(o) >= 3 and o[1] == "ok":
             k, rev = t[1], int(o[2])
             if k in newest and rev <= newest[k]:
